@@ -1,4 +1,4 @@
-import FrappyProofs.Lemmas.CommRun
+import FrappyProofs.Lemmas.CommReply
 import FrappyModel.Generated.C16
 /-
 C16 — property theorems (nothing but property theorems and their non-vacuity examples).
@@ -188,6 +188,56 @@ theorem multicommAtomicB_sound (log : Log) (h : MulticommAtomic log) : multicomm
 /-- non-vacuity: an accepted run of two callers (a multicomm of two requests against a communicate) -/
 example : Accepted findingCfgA [] atomicRun ∧ 0 < (atomicRun.filter (fun e => match e.ev with | .send _ _ _ _ => true | _ => false)).length := by
   unfold Accepted; decide
+
+/-- Stale data discarded — for EVERY accepted run, every request of every call (communicate and multicomm alike):
+whenever the model completes a reply `l` for caller `c` (event `e`, read loop → reply taken), the last send of the
+log is `c`'s own (position `i`, connection `conn`), and — unless the connection was replaced after that send — `l` is
+the first line (line devices) / the first `rlen` bytes (byte devices) of the bytes that ARRIVED AFTER that send.
+No byte that arrived before the send is part of the reply. -/
+theorem stale_discarded_run (cfg : Cfg) (cbs : List Nat) (pre : List TEv) (e : TEv) (sk s' : State)
+    (hpre : exec { cfg := cfg, cbsReg := cbs } pre = some sk) (hst : step sk e = some s') (c : Nat)
+    (hread : (sk.callers c).pc = .read) (hrel : (s'.callers c).pc = .relI) :
+    ∃ i conn n l, LastSend pre i c conn n ∧ (s'.callers c).replies = (sk.callers c).replies ++ [l] ∧
+      (NoConnectAfter pre i →
+        replyFrom sk.cfg.bytesMode sk.cfg.eol (current (sk.callers c)) l (arrivedIn pre conn none i pre.length) = true) := by
+  have hr := rinv_exec cfg cbs pre sk hpre
+  cases hwho : e.ev.who with
+  | none =>
+    have := (step_env_callers hwho hst).1
+    rw [this, hread] at hrel; simp at hrel
+  | some c0 =>
+    rw [step_caller_form sk e c0 hwho] at hst
+    split at hst
+    · simp at hst
+    · by_cases hcc : c = c0
+      · subst hcc
+        obtain ⟨_, hcase⟩ := step_read _ s' e.t c e.ev hst hread
+        rcases hcase with ⟨hp, _⟩ | ⟨_, x, l, r, dd, rest, _, hchan, hcomp, hrep⟩ | ⟨_, hne⟩
+        · rw [hrel] at hp; simp at hp
+        · obtain ⟨i, conn, n, hl, himp⟩ := hr.r c hread
+          refine ⟨i, conn, n, l, hl, hrep, fun hno => ?_⟩
+          obtain ⟨_, heq⟩ := himp hno
+          rw [← heq]
+          simp only at hchan hcomp
+          rw [hchan]
+          have := complete_replyFrom sk.cfg (current (sk.callers c)) (sk.rxbuf ++ dd) l r rest.flatten hcomp
+          simpa [List.append_assoc] using this
+        · exact absurd hrel hne
+      · rw [step_others _ s' e.t c0 e.ev hst c hcc] at hrel
+        simp only at hrel
+        rw [hread] at hrel; simp at hrel
+
+/-- Reply pairing — for every accepted run: if, after the send of a command, the device sends nothing on that
+connection but its answer to that very command (it answers in order; nothing unsolicited and no late reply arrives
+after the send), then the reply handed to the caller is (the frame of) that answer. -/
+theorem reply_pairing_run (cfg : Cfg) (cbs : List Nat) (pre : List TEv) (e : TEv) (sk s' : State)
+    (hpre : exec { cfg := cfg, cbsReg := cbs } pre = some sk) (hst : step sk e = some s') (c : Nat)
+    (hread : (sk.callers c).pc = .read) (hrel : (s'.callers c).pc = .relI) :
+    ∃ i conn n l, LastSend pre i c conn n ∧ (s'.callers c).replies = (sk.callers c).replies ++ [l] ∧
+      (NoConnectAfter pre i → OnlyAnswers pre conn n i pre.length →
+        replyFrom sk.cfg.bytesMode sk.cfg.eol (current (sk.callers c)) l (arrivedIn pre conn (some n) i pre.length) = true) := by
+  obtain ⟨i, conn, n, l, hl, hrep, himp⟩ := stale_discarded_run cfg cbs pre e sk s' hpre hst c hread hrel
+  exact ⟨i, conn, n, l, hl, hrep, fun hno ho => by rw [arrivedIn_tag_eq pre conn n i pre.length ho]; exact himp hno⟩
 
 /-- stale data discarded, step level: a `send` is accepted only from the drain state, when everything that had
 arrived on the connection has been read away and the device has not closed; the receive buffer is emptied -/
